@@ -31,6 +31,18 @@ EXTRA = {
        "NAL unit, second chunk stream, second window); interactions between two options; negative or zero durations / sizes that "
        "are legal; behaviour that depends on map iteration order or on time. Prefer a change that a careful reviewer would "
        "approve at a glance."),
+ "7": ("This is round seven. Earlier rounds covered boundary slips, stale caches, pooled/shared buffers, dropped state updates, "
+       "object reuse, write-during-read interference, data races, wrong error classes, unusual call orders, faults in the middle of "
+       "an operation, decoder-only inputs, second elements and option interactions. Find something STILL different. Suggestions: "
+       "exported helper functions and accessors next to the main path that an application combines with it (formatters, "
+       "classifiers, getters, constructors with arguments, String() methods used in error texts are NOT enough — it must break "
+       "the property as stated); arithmetic that is right on small values and wrong on large counts, long durations, many "
+       "elements, deep nesting or after many operations (overflow of an int32/uint16 counter, accumulated rounding, a table that "
+       "fills up); behaviour for EMPTY things (empty payload, empty key, empty list, zero-length write, zero timestamp, nil "
+       "map/slice arguments) where the general path is right; two DIFFERENT objects of the package used together (two readers on "
+       "one stream one after the other, a writer handed from one goroutine to another, a value encoded by one object and decoded by "
+       "another configured differently); the legal extremes of the property's own quantifier. The change must still pass the "
+       "existing tests and look like something a reviewer would wave through."),
 }
 os.makedirs("/tmp/m", exist_ok=True)
 for line in open(os.path.join(ROOT, "properties.jsonl")):
